@@ -16,12 +16,9 @@ def validAudioConfig (c : ACodec) (rate ch : Nat) : Bool :=
   | .none => true
   | _ => ¬ (rate = 0 ∨ rate > 192000) ∧ ¬ (ch = 0 ∨ ch > 8)
 
-/-- none = panic -/
+/-- `is_hevc_keyframe` -/
 def isHevcKeyframeChecked (d : Bytes) : Option Bool :=
-  if d = [] then none else
-  let ns := nals d
-  if ns.any (fun n => n ≠ [] && isHevcKeyNalType (hevcNalType n)) then some true
-  else if ns.length > 0 then some false else none
+  some ((nals d).any (fun n => n ≠ [] && isHevcKeyNalType (hevcNalType n)))
 
 def validVideoFrame (c : VCodec) (d : Bytes) (key : Bool) : Option Bool :=
   if d = [] then some false else
@@ -57,7 +54,7 @@ def runX (ts : List String) : String :=
     | some c => s!"{hex c.vps}/{hex c.sps}/{hex c.pps}" | none => "none")
   | ["extract_av1", d] => (match extractAv1 (unhex d) with
     | .some c => s!"{hex c.sequenceHeader}/{c.seqProfile}/{c.seqLevelIdx}/{c.seqTier}/{b01 c.highBitdepth}/{b01 c.twelveBit}/{b01 c.monochrome}/{b01 c.subX}/{b01 c.subY}/{c.csp}"
-    | .none => "none" | .panic => "panic")
+    | .none => "none")
   | ["extract_vp9", d] => (match extractVp9 (unhex d) with
     | some c => s!"{c.width}/{c.height}/{c.profile}/{c.bitDepth}/{c.colorSpace}/{c.transfer}/{c.matrix}/{c.level}/{c.fullRange}"
     | none => "none")
